@@ -3,7 +3,7 @@ import ast
 
 import python_minifier
 from harness import grammar as G
-from vf.stubs import ALL_OFF, untraced
+from vf.stubs import ALL_OFF, untraced, bits_index
 
 N_SLOT = G.N_SLOT
 N_CHILD = G.N_CHILD
@@ -39,16 +39,6 @@ def option_vector(i):
 
 
 N_OV = 3 + 2 * len(OPTION_NAMES)
-
-
-def bits_index(*bits):
-    """Index from boolean structure parameters: a balanced decision tree (14 forks per path) instead of CrossHair's
-    value-by-value realisation of a wide int (which costs O(n) decisions per path)."""
-    idx = 0
-    for i, b in enumerate(bits):
-        if b:
-            idx += 1 << i
-    return idx
 
 
 def _strict_same(text_out, tree):
